@@ -12,7 +12,15 @@ def validate(ctx, tier, seed): return queryjobs.validate_features(ctx, tier, see
 def spec(ctx, tier, seed):
     keys = [ctx.engine(s) for s in SETS]
     jobs = queryjobs.make_jobs(Job, tier, seed, SETS[:1], keys[:1]) + queryjobs.make_jobs(Job, tier, seed, SETS[1:], keys[1:], canary=False, light=(tier == 'quick'))
-    return {'jobs': jobs, 'level': 'model_checking', 'assumptions': ASSUMPTIONS,
+    def extra(ctx_):
+        # E2 cross-check (thorough tier): Kani/CBMC proves the same integer kernels at full width on an independently produced encoding
+        if tier != 'thorough' or build.REPO != '/repo': return [], {}, []
+        import subprocess, re, os
+        p = subprocess.run([os.path.join(build.VERIF, 'tools', 'kani.sh')], capture_output=True, text=True)
+        ok = len(re.findall(r'VERIFICATION:- SUCCESSFUL', p.stdout)); bad = len(re.findall(r'VERIFICATION:- FAILED', p.stdout))
+        inc = [] if (p.returncode == 0 and bad == 0 and ok > 0) else ['Kani cross-check: %d harnesses failed / run incomplete (the kernels are also decided by mirse, whose counterexamples are replayed): %s' % (bad, p.stdout[-400:])]
+        return [], {'kani_harnesses_verified': ok, 'kani_harnesses_failed': bad, 'kani_cmd': 'tools/kani.sh (cargo kani, CBMC 6.11, no unwinding involved)'}, inc
+    return {'jobs': jobs, 'level': 'model_checking', 'assumptions': ASSUMPTIONS, 'extra': extra,
             'extra_coverage': {'feature_sets': [build.fkey(s) for s in SETS]},
             'allowed_status': ('ok', 'panic'),
             'bounds': 'diagrams from symbolic truth tables: all functions of 2 variables, 3-variable (thorough: 4-variable) families with one symbolic table in seeded '
